@@ -94,6 +94,8 @@ InputsSched(st) ==
             \cup {[k |-> "req", m |-> [k |-> "poll_add", a |-> a, pid |-> Len(st.A[a].polls), period |-> p, id |-> NextId(st)]] :
                       a \in 1..NA, p \in {2000, 3000}}
             \cup (IF st.A[1].polls # <<>> THEN {[k |-> "req", m |-> [k |-> "poll_demand", a |-> 1, pid |-> 0, id |-> NextId(st)]]} ELSE {})
+            \* the last association can be removed (with whatever is queued for it)
+            \cup (IF NA > 1 /\ st.A[NA].exists THEN {[k |-> "req", m |-> [k |-> "remove", a |-> NA, id |-> NextId(st)]]} ELSE {})
           ELSE {})
     \cup (IF st.pc \in {"Down", "Dead"} THEN {} ELSE
             (IF st.pc = "Await" THEN {[k |-> "rx", f |-> Resp(st.cur.seq, st.cur.a, "data", {})],
